@@ -118,8 +118,8 @@ void runBasic(const Plan& p)
 			{
 				// the handle reaches its final object by assignment ("copying a Thread transfers the handle"): the running
 				// thread now belongs to the assigned-to object. The source object is kept alive until the end of the run:
-				// the unchanged library lets the running thread write its finished flag into the *source* object (known
-				// finding, DESIGN section 9), and a destroyed source would turn that write into memory corruption of the harness.
+				// the library lets the running thread write its finished flag into the *source* object (DESIGN section 9,
+				// defect 25 and its residual), and a destroyed source would turn that write into memory corruption of the harness.
 				asl::Thread* src = new asl::Thread(fn);
 				sources.push_back(src);
 				thr[i] = new asl::Thread();
